@@ -203,6 +203,7 @@ class BGP(protocol.Protocol):
             # Check the length of the message, must be less than 4096, bigger than 19
         if length < bgp_cons.HDR_LEN or length > bgp_cons.MAX_LEN:
             self.fsm.header_error(bgp_cons.ERR_MSG_HDR_BAD_MSG_LEN, struct.pack('!H', length))
+            return False
             # Check whether the entire message is already available
         if len(buf) < length:
             return False
